@@ -1,7 +1,7 @@
 """Translator, part 8: the statement methods of the writer's streams -> lean/JellyGenerated/StreamGen.lean.
 
     pyjelly/serialize/streams.py : TripleStream.triple, QuadStream.quad, Stream.enroll (+ Stream.stream_options),
-                                   Stream.namespace_declaration
+                                   Stream.namespace_declaration, GraphStream.graph
 
 They join the translated pieces: the rows `encode_triple` / `encode_quad` (StmtGen.lean) return are ALL appended to the flow
 (`self.flow.extend`), and the flow is asked for a frame after every statement (`self.flow.frame_from_bounds()`, dynamic
@@ -130,6 +130,102 @@ def render_namespace_declaration(fn: ast.FunctionDef) -> str:
         f"  {ZF} (flowExtend {rows})"])
 
 
+def render_graph(fn: ast.FunctionDef) -> str:  # noqa: C901, PLR0912, PLR0915
+    """GraphStream.graph: a generator; the frames it yields are collected in the second component of the state (so that the
+    ones yielded before an exception are kept, as a consumer of the generator keeps them); the `for` over the triples is a
+    structural recursion over the list (`GraphStream.graph__loop`)."""
+    a = fn.args
+    if len(a.args) != 3 or a.vararg or a.kwarg or a.kwonlyargs or a.defaults:
+        fail(fn, "parameter list")
+    gid, graph = a.args[1].arg, a.args[2].arg
+    ZT = "onStream (zoom (·.enc.te) (fun s v => { s with enc := { s.enc with te := v } })"
+    pre, post, loop = [], [], None
+    msg = rows = None
+    rowmsgs: dict[str, str] = {}
+    cur = pre
+
+    def walrus_yield(st) -> str | None:
+        """if frame := <call>: yield frame  ->  the call"""
+        if isinstance(st, ast.If) and not st.orelse and isinstance(st.test, ast.NamedExpr) and isinstance(st.test.target, ast.Name) and len(st.body) == 1 \
+                and isinstance(st.body[0], ast.Expr) and isinstance(st.body[0].value, ast.Yield) and getattr(st.body[0].value.value, "id", None) == st.test.target.id:
+            return ast.unparse(st.test.value)
+        return None
+
+    for st in body_of(fn):
+        if isinstance(st, ast.Assign) and isinstance(st.targets[0], ast.Name) and isinstance(st.value, ast.Call) and ast.unparse(st.value.func) == "jelly.RdfGraphStart" \
+                and not st.value.args and not st.value.keywords and msg is None:
+            msg = st.targets[0].id
+            cur.append(f"  let mut {msg} : PStmt := {{}}")
+            continue
+        if isinstance(st, ast.Expr) and isinstance(st.value, ast.Call) and ast.unparse(st.value.func) in ("self.encoder.start_row", "self.encoder.end_row") and not st.value.args:
+            cur.append(f"  {ZT} TermEncoder.{st.value.func.attr})")
+            continue
+        # [*graph_rows] = self.encoder.encode_graph(graph_id, graph_start)
+        if isinstance(st, ast.Assign) and isinstance(st.value, ast.Call) and ast.unparse(st.value.func) == "self.encoder.encode_graph" and msg is not None \
+                and [getattr(x, "id", None) for x in st.value.args] == [gid, msg] and not st.value.keywords:
+            tg = st.targets[0]
+            if not (isinstance(tg, ast.List) and len(tg.elts) == 1 and isinstance(tg.elts[0], ast.Starred) and isinstance(tg.elts[0].value, ast.Name)):
+                fail(st, "target of encode_graph")
+            rows = tg.elts[0].value.id
+            cur.append(f"  let t1__ ← {ZT} (encG {gid}))")
+            cur.append(f"  let mut {rows} : List Row := t1__.1")
+            cur.append(f"  {msg} := {{ {msg} with g := some t1__.2 }}")
+            continue
+        # start_row = jelly.RdfStreamRow(graph_start=graph_start) / end_row = jelly.RdfStreamRow(graph_end=jelly.RdfGraphEnd())
+        if isinstance(st, ast.Assign) and isinstance(st.targets[0], ast.Name) and isinstance(st.value, ast.Call) and ast.unparse(st.value.func) == "jelly.RdfStreamRow" \
+                and not st.value.args and len(st.value.keywords) == 1:
+            k = st.value.keywords[0]
+            if k.arg == "graph_start" and getattr(k.value, "id", None) == msg and msg:
+                rowmsgs[st.targets[0].id] = f"Row.graphStart {msg}.g"
+                continue
+            if k.arg == "graph_end" and ast.unparse(k.value) == "jelly.RdfGraphEnd()":
+                rowmsgs[st.targets[0].id] = "Row.graphEnd"
+                continue
+            fail(st, "row")
+        if isinstance(st, ast.Expr) and isinstance(st.value, ast.Call) and isinstance(st.value.func, ast.Attribute) and len(st.value.args) == 1 and not st.value.keywords:
+            c = st.value
+            if c.func.attr == "append" and getattr(c.func.value, "id", None) == rows and rows and getattr(c.args[0], "id", None) in rowmsgs:
+                cur.append(f"  {rows} := {rows} ++ [{rowmsgs[c.args[0].id]}]")
+                continue
+            if ast.unparse(c.func) == "self.flow.extend" and getattr(c.args[0], "id", None) == rows and rows:
+                cur.append(f"  onStream ({ZF} (flowExtend {rows}))")
+                continue
+            if ast.unparse(c.func) == "self.flow.append" and getattr(c.args[0], "id", None) in rowmsgs:
+                cur.append(f"  onStream ({ZF} (flowExtend [{rowmsgs[c.args[0].id]}]))")
+                continue
+            fail(st, "call")
+        # for triple in graph: if frame := self.triple(triple): yield frame
+        if isinstance(st, ast.For) and not st.orelse and isinstance(st.target, ast.Name) and getattr(st.iter, "id", None) == graph and loop is None and len(st.body) == 1:
+            call = walrus_yield(st.body[0])
+            if call != f"self.triple({st.target.id})":
+                fail(st, "loop body")
+            loop = st.target.id
+            cur.append(f"  GraphStream.graph__loop enc encG exc frame_from_bounds {graph}")
+            cur = post
+            continue
+        call = walrus_yield(st)
+        if call == "self.flow.frame_from_bounds()":
+            cur.append(f"  let t9__ ← onStream ({ZF} frame_from_bounds)")
+            cur.append("  if t9__.isSome then")
+            cur.append("    yieldFrame (← liftE (optGet t9__))")
+            continue
+        fail(st, "statement")
+    if loop is None:
+        fail(fn, "no loop over the triples")
+    head = "(enc encG : Term → M TermEnc (List Row × WTerm)) (exc : PyErr) (frame_from_bounds : M Flow (Option Frame))"
+    return "\n".join([
+        f"def GraphStream.graph__loop {head} : List (List Term) → M (Stream × List Frame) Unit",
+        "  | [] => pure ()",
+        f"  | {loop} :: rest__ => do",
+        f"    let t8__ ← onStream (TripleStream.triple enc encG exc frame_from_bounds {loop})",
+        "    if t8__.isSome then",
+        "      yieldFrame (← liftE (optGet t8__))",
+        "    GraphStream.graph__loop enc encG exc frame_from_bounds rest__",
+        "",
+        f"def GraphStream.graph {head} ({gid} : Term) ({graph} : List (List Term)) : M (Stream × List Frame) Unit := do",
+        *pre, *post])
+
+
 def translate() -> str:
     tree = ast.parse((REPO / SRC).read_text())
 
@@ -155,6 +251,8 @@ def translate() -> str:
     out += [f"/-- `QuadStream.quad` ({SRC}:{q.lineno}) -/", render_statement_method("QuadStream", q, "encode_quad"), ""]
     st = cls("Stream")
     out += [f"/-- `Stream.stream_options` / `Stream.enroll` ({SRC}:{meth(st, 'enroll').lineno}) -/", render_enroll(meth(st, "enroll"), meth(st, "stream_options")), ""]
+    gr = meth(cls("GraphStream"), "graph")
+    out += [f"/-- `GraphStream.graph` ({SRC}:{gr.lineno}) -/", render_graph(gr), ""]
     nd = meth(st, "namespace_declaration")
     out += [f"/-- `Stream.namespace_declaration` ({SRC}:{nd.lineno}) -/", render_namespace_declaration(nd), ""]
     out.append("end Jelly.Gen")
